@@ -132,7 +132,8 @@ pub fn set_intern(h: Arc<Mutex<HashMap<[u8; 32], F>>>) {
 
 /// Forget every interned point on this thread's table (call between independent cases)
 pub fn clear_intern() {
-    INTERN.with(|t| t.borrow().lock().unwrap().clear());
+    // replace this thread's table by a fresh one (a table shared with other threads is left untouched)
+    INTERN.with(|t| *t.borrow_mut() = Arc::new(Mutex::new(HashMap::new())));
 }
 
 /// Start logging identity comparisons on this thread
